@@ -7,6 +7,7 @@ import (
 	"os"
 	"path/filepath"
 	"sort"
+	"regexp"
 	"strings"
 	"sync"
 
@@ -603,10 +604,13 @@ func (g *gateFS) TempFile(dir, prefix string) (billy.File, error) {
 	return &simFile{File: f, c: c, name: "tmp:" + prefix}, nil
 }
 
+var tempNameRe = regexp.MustCompile(`^(clock|lock)[0-9]+$`)
+
 func (g *gateFS) Remove(filename string) error {
 	if c := g.ctl(); c != nil {
 		c.stall("fs.Remove")
-		if _, err := c.gate("fs.Remove", true, filename); err != nil {
+		// temporary files have random names: log them by their prefix
+		if _, err := c.gate("fs.Remove", true, tempNameRe.ReplaceAllString(filename, "tmp:$1")); err != nil {
 			return err
 		}
 	}
